@@ -18,8 +18,22 @@ import (
 
 const MaxID = 12 // default size of the id universe (Config.NIDs overrides)
 
+// Two ids of the universe are the boundary values of the id space: id 3 is the
+// all-zero UUID (the zero value of the type: whatever the code produces by
+// accident), id 4 the all-ones UUID.
+const (
+	zeroID = 3
+	maxID  = 4
+)
+
 func UUIDOf(i int) uuid.UUID {
 	var u uuid.UUID
+	switch i {
+	case zeroID:
+		return uuid.Nil
+	case maxID:
+		return uuid.Max
+	}
 	// scatter the bytes so that byte order differs from integer order
 	u[0] = byte(0xA0 - 7*i)
 	u[6] = 0x40
@@ -29,7 +43,15 @@ func UUIDOf(i int) uuid.UUID {
 	return u
 }
 
-func IDOf(u uuid.UUID) int { return int(u[14])<<8 | int(u[15]) }
+func IDOf(u uuid.UUID) int {
+	switch u {
+	case uuid.Nil:
+		return zeroID
+	case uuid.Max:
+		return maxID
+	}
+	return int(u[14])<<8 | int(u[15])
+}
 
 // ---------------------------------------------------------------------------
 // Ladders. Rank order = numeric order; IEEE-equal values share a rank.
